@@ -6,7 +6,7 @@ from typing import Any
 
 from ..absint import AObj, AbsRaise, Interp
 from ..card import D, domain_wf, kind
-from ..codec import Codec, NAME_CLASSES, PATH, ctc_model, kind_model, name_model, new_interp, run_reader, run_writer
+from ..codec import Codec, operator_trees, NAME_CLASSES, PATH, ctc_model, kind_model, name_model, new_interp, run_reader, run_writer
 from ..core import AnalysisError, Ctx, loc
 from ..iostubs import VFS, pure_data
 from ..logic import BINARY_LOGICAL
@@ -63,6 +63,7 @@ def check(pm: ProgramModel, ctx: Ctx) -> None:
         mb.relation(root, [mb.feature("A", is_abstract=not flag)], 1, 1)
         rt = roundtrip(mb.model(root, []))
         report("C05-TYPE", f"abstract={flag}", wwhere, rt, f"abstract flag {flag}", owns=("abstract",))
+    cd.abstract_positions(mb, "TYPE")
     # NAMES -------------------------------------------------------------------------------------------
     for cls_, name in NAME_CLASSES.items():
         rt = roundtrip(name_model(mb, name))
@@ -84,9 +85,7 @@ def check(pm: ProgramModel, ctx: Ctx) -> None:
     # CONSTRAINTS ---------------------------------------------------------------------------------------
     n, o = mb.node, mb.op
     for op in BINARY_LOGICAL:
-        roots = [(f"c_{op}", n(o(op), n("A"), n("B"))),
-                 (f"nested_{op}", n(o(op), n(o("NOT"), n("A")), n(o("AND"), n("B"), n("C")))),
-                 (f"inner_{op}", n(o("OR"), n(o(op), n("A"), n("B")), n("C")))]
+        roots = operator_trees(mb, op)
         rt = roundtrip(ctc_model(mb, roots))
         report("C05-VOC", f"operator:{op}", wwhere, rt, f"constraints over {op}", owns=("constraint", "constraint-count"))
     rt = roundtrip(ctc_model(mb, [("neg", n(o("NOT"), n(o("NOT"), n("A")))), ("single", n("B"))]))
